@@ -1,5 +1,7 @@
 (** C09 - A partial forest stores only true, needed hashes and can always prove its cache. *)
 From Utreexo Require Import Spec.Forest Proofs.SpecBasics.
+From Utreexo Require Import Spec.Forest Proofs.RefTheory.
+From Coq Require Import List.
 Open Scope N_scope.
 
 (** canonical proof positions of the remembered leaves come out ascending (what Prove must return) *)
@@ -7,3 +9,26 @@ Theorem C09_needed_order : forall (H : Type) rows (lay targets : list (node H)),
   ascK (sort_coords rows (proof_coords lay targets)).
 Proof. intros. apply sortK_asc. Qed.
 Print Assumptions C09_needed_order.
+
+(** ** merged from C09b.v *)
+
+Theorem C09_needed_sub_allowed : forall (H : Type) (HO : ops H) (s : slots H) (R : list H) nd al,
+  needed_pos HO s R = Some nd -> allowed_pos HO s R = Some al -> forall p, In p nd -> In p al.
+Proof. exact needed_sub_allowed. Qed.
+Print Assumptions C09_needed_sub_allowed.
+
+Theorem C09_needed_mono : forall (H : Type) (HO : ops H) (s : slots H) (R R' : list H) nd nd',
+  (forall h, In h R -> In h R') ->
+  needed_pos HO s R = Some nd -> needed_pos HO s R' = Some nd' -> forall p, In p nd -> In p nd'.
+Proof. exact needed_mono. Qed.
+Print Assumptions C09_needed_mono.
+
+Theorem C09_equiv_needed : forall (H : Type) (HO : ops H) (s s' : slots H) (R : list H),
+  equiv HO s s' -> needed_pos HO s R = needed_pos HO s' R.
+Proof. exact equiv_needed. Qed.
+Print Assumptions C09_equiv_needed.
+
+Theorem C09_equiv_allowed : forall (H : Type) (HO : ops H) (s s' : slots H) (R : list H),
+  equiv HO s s' -> allowed_pos HO s R = allowed_pos HO s' R.
+Proof. exact equiv_allowed. Qed.
+Print Assumptions C09_equiv_allowed.
